@@ -191,6 +191,91 @@ def make_pair(mod, spec):
     return out
 
 
+def make_asint(mod, spec):
+    """integer-dtype case (pwlib/share.py, `intmode`): the same call with every float64 array the adapter builds from
+    whole numbers built as an int64 array instead ("all"), or about two thirds of them chosen per call site; the
+    mathematical input is unchanged, so the result is compared with the model's answer for the plain case."""
+    from . import share
+    inner = spec["spec"]
+    fresh = _as_list(mod.make(inner))
+    out = []
+    for k, b0 in enumerate(fresh):
+        if b0.model_only:
+            continue
+        seen = []
+
+        def impl(k=k, seen=seen):
+            del seen[:]
+            with share.scope(_adapter_modules(mod), intmode=spec.get("mode", "all")) as pool:
+                b = _as_list(mod.make(inner))[k]
+                try:
+                    rb = b.impl()
+                    if b.oracle is not None:
+                        try:
+                            seen.extend(b.oracle(("ok", rb)) or [])
+                        except Exception:
+                            pass
+                    return rb
+                finally:
+                    PAIR_STATS.update({"built_as_integer_arrays": pool.stats["built_as_integer_arrays"]})
+
+        def oracle(r, b0=b0, seen=seen):
+            out = list(seen)
+            if b0.oracle is not None:
+                out += [v for v in (b0.oracle(r) or []) if v not in out]
+            return out
+        def compare(r, a, mode, b0=b0):
+            base = b0.compare if b0.compare is not None else \
+                (lambda r_, a_, m_: canon.compare(r_, a_, scale=b0.scale, rtol=b0.rtol))
+            msg = base(r, a, mode)
+            if msg and r is not None and r[0] == "ok" and isinstance(r[1], list):
+                # observed dtype tags: an integer argument that is stored or returned as it came is integer-typed, the
+                # model's constant there is the float spelling.  Values are what is compared.
+                r2 = ("ok", ["dt:f8" if isinstance(x, str) and x in ("dt:i8", "dt:i4", "dt:u8") else x for x in r[1]])
+                if r2[1] != r[1]:
+                    return base(r2, a, mode)
+            return msg
+        pspec = dict(spec)
+        if len(fresh) > 1:
+            pspec["index"] = k
+        out.append(Case(pspec, b0.line, impl, mode=b0.mode, klass="int:" + b0.klass, trivial=b0.trivial,
+                        oracle=oracle, compare=compare, scale=b0.scale, rtol=b0.rtol))
+    if "index" in spec:
+        out = [c for c in out if c.spec.get("index") == spec["index"]]
+    return out
+
+
+def _has_whole_array(x):
+    if isinstance(x, dict):
+        return any(_has_whole_array(v) for k, v in x.items() if k != "op")
+    if _is_num_array(x) and isinstance(x, list):
+        flat = []
+
+        def walk(y):
+            if isinstance(y, list):
+                for z in y:
+                    walk(z)
+            else:
+                flat.append(y)
+        walk(x)
+        return len(flat) >= 3 and all(float(v) == int(v) for v in flat if v == v and abs(v) != float("inf")) \
+            and all(v == v and abs(v) != float("inf") for v in flat)
+    if isinstance(x, list):
+        return any(_has_whole_array(y) for y in x)
+    return False
+
+
+def asint_specs(specs, rng, tier):
+    """integer-dtype cases derived from the generated specs that contain an all-whole-number array"""
+    pool = [s for s in specs if isinstance(s, dict) and s.get("op") not in ("pair", "asint") and _has_whole_array(s)]
+    if not pool:
+        return []
+    cap = 300 if tier == "quick" else 1500
+    n = min(cap, max(20, len(pool) // 6), len(pool))
+    return [{"op": "asint", "mode": "all" if rng.random() < 0.5 else rng.randrange(1 << 16), "spec": s}
+            for s in rng.sample(pool, n)]
+
+
 def _shape_sig(x):
     if isinstance(x, list):
         return ("L", len(x), _shape_sig(x[0]) if x else None)
@@ -276,10 +361,10 @@ def pair_specs(specs, rng, tier):
     """history cases derived from the generated specs: about one in eight, at most 400 (quick) / 2000 (thorough)"""
     by_op = collections.defaultdict(list)
     for s in specs:
-        if isinstance(s, dict) and s.get("op") != "pair":
+        if isinstance(s, dict) and s.get("op") not in ("pair", "asint"):
             by_op[s.get("op")].append(s)
     cap = 400 if tier == "quick" else 2000
-    pool = [s for s in specs if isinstance(s, dict) and s.get("op") != "pair"]
+    pool = [s for s in specs if isinstance(s, dict) and s.get("op") not in ("pair", "asint")]
     if not pool:
         return []
     n = min(cap, max(20, len(pool) // 8), len(pool))
@@ -297,7 +382,12 @@ def evaluate(mod, specs, stats, collect_samples=3):
     adapter_failures = []
     for s in specs:
         try:
-            c = make_pair(mod, s) if s.get("op") == "pair" and "second" in s else mod.make(s)
+            if s.get("op") == "pair" and "second" in s:
+                c = make_pair(mod, s)
+            elif s.get("op") == "asint" and "spec" in s:
+                c = make_asint(mod, s)
+            else:
+                c = mod.make(s)
         except Exception:
             # On the unchanged tree every spec builds (checked by the clean runs); an adapter that fails now fails
             # because the code under test behaves differently while the case is being set up (constructors raising /
@@ -317,7 +407,7 @@ def evaluate(mod, specs, stats, collect_samples=3):
     for c in cases:
         if c.model_only:
             impl_res.append(None)
-        elif intern and not c.klass.startswith("pair:"):
+        elif intern and not c.klass.startswith("pair:") and not c.klass.startswith("int:"):
             # operation programs: arguments with equal values built at the same adapter call site are one object, as for
             # a caller that passes its `look` vector to two steps (pwlib/share.py, single phase: nothing is overwritten)
             from . import share
@@ -405,8 +495,11 @@ def run_check(mod, tier, seed, replay=None):
     else:
         corpus = load_corpus(prop)
         specs = list(mod.gen(rng, tier))
+        base = corpus + specs
         if getattr(mod, "PAIRS", True):
-            specs = specs + pair_specs(corpus + specs, random.Random(rng.random()), tier)
+            specs = specs + pair_specs(base, random.Random(rng.random()), tier)
+        if getattr(mod, "ASINT", True):
+            specs = specs + asint_specs(base, random.Random(rng.random()), tier)
     all_specs = corpus + specs
     mismatches, violations, samples = evaluate(mod, all_specs, stats)
 
@@ -490,7 +583,8 @@ def run_check(mod, tier, seed, replay=None):
                 "oracle_violations": len(violations),
                 "known_findings_replayed": list(known_hit.keys()),
                 "exhaustive": bool(getattr(mod, "EXHAUSTIVE", {}).get(tier, False)),
-                "history_pairs": dict(PAIR_STATS, cases=sum(v for k, v in stats["classes"].items() if k.startswith("pair:"))),
+                "history_pairs": dict(PAIR_STATS, cases=sum(v for k, v in stats["classes"].items() if k.startswith("pair:")),
+                                      integer_dtype_cases=sum(v for k, v in stats["classes"].items() if k.startswith("int:"))),
             },
             "assumptions": list(getattr(mod, "ASSUMPTIONS", [])),
             "wall_s": round(wall, 2),
